@@ -218,7 +218,7 @@ def main():
                 meta["detected_first"] = meta.pop("detected_by", {})
                 meta.pop("detected_for_property", None)
             meta["breaks_property"] = meta["property"]
-            meta["needs_to_manifest"] = NEEDS.get(sid, "")
+            meta["needs_to_manifest"] = NEEDS.get(sid, meta.get("needs_to_manifest", ""))
             if det is None:
                 meta["detected_now_error"] = err
             else:
